@@ -207,16 +207,31 @@ Proof.
   - right. exists t'. split; [right|]; auto.
 Qed.
 
-(* The files a scan finds after any history from the empty table, with the bounds pruning reads, are exactly the flat
-   list semantics applied to the files as they were appended. *)
+(* The files a scan finds after ANY history from the empty table -- histories that register the same path again
+   included --, with the bounds pruning reads, are the flat list semantics applied to the files as they were appended,
+   each path once (its first entry: Table._get_all_data_files). *)
 Theorem history_files txs :
+  (forall t, In t txs -> Forall clean (tx_app t)) ->
+  table_files (run txs []) = dedup [] (spec_run txs []).
+Proof. intros C. unfold table_files. rewrite view_run by exact C. reflexivity. Qed.
+
+(* ... which is the list itself when every appended file has its own path *)
+Theorem history_files_distinct txs :
   (forall t, In t txs -> Forall clean (tx_app t)) ->
   NoDup (paths (concat (map tx_app txs))) ->
   table_files (run txs []) = spec_run txs [].
 Proof.
-  intros C ND. unfold table_files. rewrite view_run by exact C. simpl.
+  intros C ND. rewrite history_files by exact C.
   apply dedup_id; [|intros d _ []].
   apply spec_run_nodup. exact ND.
+Qed.
+
+Lemma dedup_in ds : forall seen d, In d (dedup seen ds) -> In d ds.
+Proof.
+  induction ds as [|a ds IH]; intros seen d I; [exact I|].
+  simpl in I. destruct (zmem (dpath a) seen).
+  - right. eapply IH; eauto.
+  - destruct I as [Q|I]; [left; exact Q|right; eapply IH; eauto].
 Qed.
 
 (* ------------------------------------------------------------------ 6. the bounds a writer computes *)
@@ -293,22 +308,21 @@ Theorem history_sql
   valid_cols sch cols -> (forall l, concat (split l) = l) ->
   NoDup (map snd ids) ->
   appends_written ids txs ->
-  NoDup (paths (concat (map tx_app txs))) ->
   (forall d, In d (table_files (run txs [])) -> bounds (dfile_ d) = manifest_bounds d) ->
   let files := map dfile_ (table_files (run txs [])) in
   refused B ce = false ->
   (forall e f r, ce = Some e -> In f files -> In r (frows f) -> eval3 X E e r <> None) ->
-  let answer := Ok (sel cols (filter (row_selected X es) (concat (map frows (map dfile_ (spec_run txs [])))))) in
+  let answer := Ok (sel cols (filter (row_selected X es) (concat (map frows (map dfile_ (dedup [] (spec_run txs []))))))) in
   scan_table X E B PA sch ids bounds v cols flt files = answer
   /\ flat (scan_batches X E B PA sch ids bounds split cols flt files) = answer
   /\ iter_records X E B PA sch ids bounds cols flt files = answer.
 Proof.
-  intros P Sh V S ND AW NP Bo files NB NR answer.
+  intros P Sh V S ND AW Bo files NB NR answer.
   assert (C : forall t, In t txs -> Forall clean (tx_app t)).
   { intros t I. apply Forall_forall. intros d Id. destruct (AW t d I Id) as [WF Q]. rewrite Q. apply written_clean. exact WF. }
-  assert (HF : table_files (run txs []) = spec_run txs []) by (apply history_files; auto).
-  assert (W : forall d, In d (spec_run txs []) -> wf_file ids (frows (dfile_ d)) /\ d = written ids (dpath d) (dfile_ d)).
-  { intros d I. apply spec_run_in in I. destruct I as [[]|[t [I1 I2]]]. apply (AW t d I1 I2). }
+  assert (HF : table_files (run txs []) = dedup [] (spec_run txs [])) by (apply history_files; auto).
+  assert (W : forall d, In d (dedup [] (spec_run txs [])) -> wf_file ids (frows (dfile_ d)) /\ d = written ids (dpath d) (dfile_ d)).
+  { intros d I. apply dedup_in in I. apply spec_run_in in I. destruct I as [[]|[t [I1 I2]]]. apply (AW t d I1 I2). }
   assert (BE : forall f, In f files -> bounds f = stored_bounds ids f).
   { intros f I. unfold files in I. apply in_map_iff in I. destruct I as [d [<- I]].
     rewrite (Bo d I). rewrite HF in I. destruct (W d I) as [_ Q]. rewrite Q at 1 2. unfold manifest_bounds, written, stored_bounds. simpl.
